@@ -107,11 +107,17 @@ def expected_matrices(N, b, variants):
     return outs
 
 
-def zero_variants(b):
-    """Accepted numbers of zeroed bins (signed: + from the bottom, - from the top)."""
+def zero_variants(b, exact_arith=True):
+    """Accepted numbers of zeroed bins (signed: + from the bottom, - from the top).
+
+    The single boundary bin is left open when the requested shift is within rounding of a whole bin: either the exact
+    shift is within 1e-9 of (but not equal to) a whole bin, or it is a whole bin but the library's float product
+    shift * dt * N cannot be exact (sample spacing 1/sample_rate not a dyadic number), so that it may come out one ulp
+    above the integer and ceil() takes the next bin.
+    """
     if b == 0:
         return [0]
-    near = abs(b - round(b)) <= F(1, 10 ** 9) and b.denominator != 1
+    near = abs(b - round(b)) <= F(1, 10 ** 9) and (b.denominator != 1 or not exact_arith)
     if b > 0:
         v = [math.ceil(b)]
         if near:
@@ -123,7 +129,7 @@ def zero_variants(b):
     return v
 
 
-def check_call(res, case, z, Xof, q, bex, ss, sub):
+def check_call(res, case, z, Xof, q, bex, ss, sub, exact_arith=True):
     N = len(z)
     eps = float(np.finfo(np.dtype(case["dtype"])).eps)
     tol = 64 * eps * max(N, 1)
@@ -152,9 +158,9 @@ def check_call(res, case, z, Xof, q, bex, ss, sub):
         if col.ndim == 1:
             col = col[:, None]
         X = Xof(idx)
-        variants = zero_variants(b)
+        variants = zero_variants(b, exact_arith)
         if len(variants) > 1:
-            res.skipped["boundary bin open: shift within 1e-9 of a whole bin (non-dyadic rate)"] += 1
+            res.skipped["boundary bin open: shift within rounding of a whole bin (non-dyadic sample spacing)"] += 1
         best = None
         for M, keep in expected_matrices(N, b, variants):
             E = M @ X
@@ -193,6 +199,7 @@ def check_case(case):
     XbL = Xb.astype(dft.CLD)
     XgL = np.asarray(zg.data).astype(dft.CLD)
     srx = hz(zg.sample_rate)
+    dyadic = (srx.numerator & (srx.numerator - 1)) == 0 and (srx.denominator & (srx.denominator - 1)) == 0
     unit = u.Unit(case["unit"])
     sr_in_unit = zg.sample_rate.to_value(unit)
 
@@ -210,10 +217,10 @@ def check_case(case):
             for idx in np.ndindex(*ss):
                 bex[idx] = F(float(qb[idx])) * sc * N / srx
             res.state((N, str(dtype), ss, case["rate"], shp, name))
-            check_call(res, case, zb, lambda idx: XbL, q, bex, ss, dict(sub, input="basis"))
+            check_call(res, case, zb, lambda idx: XbL, q, bex, ss, dict(sub, input="basis"), dyadic)
             if shp is None or len(shp) <= len(ss):
                 check_call(res, case, zg, lambda idx: XgL[(slice(None),) + idx].reshape(N, 1), q, bex, ss,
-                           dict(sub, input="payload"))
+                           dict(sub, input="payload"), dyadic)
             if shp is None:
                 res.hits["scalar shift on multi-element sample shape"] += int(np.prod(ss) > 1)
             elif any(a == 1 and b_ > 1 for a, b_ in zip(shp, ss)) or len(shp) < len(ss):
